@@ -1172,8 +1172,21 @@ where
 		if let Some(e) = tx.ttl_cutoff_height {
 			if tip.0 >= e {
 				wallet_lock!(wallet_inst, w);
-				let parent_key_id = w.parent_key_id();
-				tx::cancel_tx(&mut **w, keychain_mask, &parent_key_id, Some(tx.id), None)?;
+				// the entry was listed a while ago, for the account it belongs to:
+				// cancel it there, and don't fail the whole update if somebody
+				// else cancelled or confirmed it in the meantime
+				match tx::cancel_tx(
+					&mut **w,
+					keychain_mask,
+					&tx.parent_key_id,
+					Some(tx.id),
+					None,
+				) {
+					Ok(_)
+					| Err(Error::TransactionNotCancellable(_))
+					| Err(Error::TransactionDoesntExist(_)) => {}
+					Err(e) => return Err(e),
+				}
 			}
 		}
 	}
